@@ -114,6 +114,18 @@ def run(tier):
                 rep.violation("defrag:%s" % vlib.hashlib.sha1(json.dumps(ops).encode()).hexdigest()[:10], {"ops": ops}, "returns Ok/Err", x, why, "path")
                 break
             rep.nontrivial(("defrag", op["op"], x["res"]["k"], x["inprog"]))
+    # ... and the real-size stream (10 MiB boundary, a completion just below it, 70 000 one-byte continuation records)
+    sp = os.path.join(d, "defrag_stream.ndjson")
+    rc, _ = vlib.run_harness(binary, ["defrag-stream", sp])
+    evs = vlib.read_ndjson(sp)
+    if rc == 3 or len(evs) < 70000:
+        rep.violation("hang:defrag-stream", {}, "returns", vlib.read_ndjson(sp + ".timeout") if rc == 3 else len(evs), "the real-size defragmenter stream did not finish", "path")
+    for n, e in enumerate(evs):
+        rep.count()
+        if e["k"] in ("panic", "timeout") or e["alloc"] > 1024 * e["len"] + 2 * e["buflen"] + 65536:
+            rep.violation("defrag-stream:%d" % n, {"stream_event": n, "event": e}, "returns Ok/Err within the heap bound", e,
+                          "real-size defragmenter stream, event %d (%s of %d bytes, buffer %d): %s" % (n, e["op"], e["len"], e["buflen"], e["k"] if e["k"] in ("panic", "timeout") else "heap %d" % e["alloc"]), "path")
+            break
     rep.assumptions += ["Heap bound per call: A = 1024 bytes per input byte + B = 64 KiB (defragmenter: + twice the buffer length after the call, i.e. amortised Vec growth, the buffer itself staying below 10 MiB); measured worst case ~205 B/byte",
                         "The harness is built with overflow-checks and debug-assertions on; a hang is a call exceeding 5 s"]
     return rep.finish("exploration",
